@@ -145,11 +145,11 @@ static long n2, n3, n3b, n4, ntotal; static int thorough;
 
 static void count_scenarios(void)
 {
-    LA = thorough ? 3 : 2; LB = 2; L3 = 1;
+    LA = thorough ? 3 : 2; LB = thorough ? 3 : 2; L3 = 1;
     n2 = 4L * nprog(LA) * nprog(LB);
-    n3 = 4L * NPOPS * NPOPS * NPOPS;
+    n3 = thorough ? 4L * nprog(1) * nprog(1) * nprog(2) : 4L * NPOPS * NPOPS * NPOPS;
     n3b = thorough ? 4L * 6 * 6 : 4L * 2;    /* 3 threads, the last-owner reset against two lockers with longer programs */
-    n4 = thorough ? 2L * 4 * 4 * 4 * 4 : 2;
+    n4 = thorough ? 2L * NPOPS * NPOPS * NPOPS * NPOPS : 2;
     ntotal = n2 + n3 + n3b + n4;
 }
 static void load_scenario(long id)
@@ -164,7 +164,9 @@ static void load_scenario(long id)
     } else if (id < n2 + n3) {
         int c; id -= n2; c = (int)(id % 4); id /= 4;
         S.nthreads = 3;
-        for (t = 0; t < 3; t++) { S.has_own[t] = cfg3[c][t][0]; S.has_w[t] = cfg3[c][t][1]; S.plen[t] = 1; S.prog[t][0] = (int)(id % NPOPS); id /= NPOPS; }
+        for (t = 0; t < 3; t++) { S.has_own[t] = cfg3[c][t][0]; S.has_w[t] = cfg3[c][t][1]; }
+        if (!thorough) for (t = 0; t < 3; t++) { S.plen[t] = 1; S.prog[t][0] = (int)(id % NPOPS); id /= NPOPS; }
+        else { decode_prog((int)(id % nprog(1)), &S.plen[0], S.prog[0]); id /= nprog(1); decode_prog((int)(id % nprog(1)), &S.plen[1], S.prog[1]); id /= nprog(1); decode_prog((int)id, &S.plen[2], S.prog[2]); }
     } else if (id < n2 + n3 + n3b) {
         int c; id -= n2 + n3; c = (int)(id % 4); id /= 4;
         S.nthreads = 3;
@@ -177,7 +179,7 @@ static void load_scenario(long id)
         S.nthreads = 4;
         for (t = 0; t < 4; t++) { S.has_own[t] = cfg4[c][t][0]; S.has_w[t] = cfg4[c][t][1]; S.plen[t] = 1; }
         if (!thorough) { S.prog[0][0] = P_RESET_OWN; S.prog[1][0] = c ? P_RESET_OWN : P_LOCK; S.prog[2][0] = P_LOCK; S.prog[3][0] = c ? P_LOCK : P_WEAKRESET; }
-        else for (t = 0; t < 4; t++) { S.prog[t][0] = ops4[id % 4]; id /= 4; }
+        else for (t = 0; t < 4; t++) { S.prog[t][0] = (int)(id % NPOPS); id /= NPOPS; }
     }
     for (t = 0; t < S.nthreads; t++) {
         p += sprintf(p, "%sT%d[%s%s%s]{", t ? " || " : "", t, S.has_own[t] ? "owner" : "", S.has_own[t] && S.has_w[t] ? "+" : "", S.has_w[t] ? "weak" : "");
